@@ -1,43 +1,67 @@
 #!/usr/bin/env python3
-"""tools/seedrun.py [DIR] [PROP...] : apply each seeded patch to a scratch copy of /repo (never /repo itself),
-run the check of its property (and optionally all checks) on the copy, report which checks fire."""
+"""tools/seedrun.py [PROP...] : apply each seeded break (/verif/seeded) and each behaviour-preserving refactoring
+(/verif/refactorings) to a scratch copy of /repo HEAD (never /repo itself), run the check of its property on the copy and
+report what the check says. Writes seeded/RESULTS.md when run without arguments."""
 import glob, json, os, shutil, subprocess, sys, tempfile
-base = sys.argv[1] if len(sys.argv) > 1 else '/verif/seeded'
-props = sys.argv[2:]
+from concurrent.futures import ThreadPoolExecutor
+props = sys.argv[1:]
 here = os.path.dirname(os.path.dirname(os.path.abspath(__file__)))
-rows = []
-for pd in sorted(glob.glob(os.path.join(base, 'C*', '*', 'patch.diff')) + glob.glob(os.path.join(base, 'C*-*', 'patch.diff'))):
+
+
+def one(pd):
     d = os.path.dirname(pd)
-    rel = os.path.relpath(d, base)
+    rel = os.path.basename(d)
     prop = rel[:3]
-    if props and prop not in props:
-        continue
     tmp = tempfile.mkdtemp(prefix='pvsseed')
     try:
         subprocess.check_call('git -C /repo archive HEAD pero_ocr user_scripts | tar -x -C %s' % tmp, shell=True)
         r = subprocess.run(['patch', '-p1', '-s', '-d', tmp, '-i', pd], capture_output=True, text=True)
         if r.returncode != 0:
-            rows.append((rel, 'PATCH-FAILED', r.stdout[:100]))
-            continue
+            return rel, 'PATCH-FAILED', r.stdout[:100]
         r = subprocess.run([os.path.join(here, 'check'), prop, '--root', tmp], capture_output=True, text=True)
         viol = [l for l in r.stdout.splitlines() if l.startswith('  ') and 'rule=' in l]
         rules = sorted({l.split('rule=')[1].split()[0] for l in viol})
-        status = {0: 'missed', 1: 'CAUGHT', 2: 'ERROR'}.get(r.returncode, '?')
-        rows.append((rel, status, ','.join(rules) if rules else ([l for l in r.stdout.splitlines() if 'ANALYSIS-ERROR' in l] or [''])[0][:150]))
+        errs = [l for l in r.stdout.splitlines() if 'ANALYSIS-ERROR' in l]
+        status = {0: 'silent', 1: 'VIOLATION', 2: 'CANNOT-DECIDE'}.get(r.returncode, '?')
+        return rel, status, ','.join(rules) if rules else (errs or [''])[0].replace('ANALYSIS-ERROR ', '')[:170]
     finally:
         shutil.rmtree(tmp)
-for row in rows:
-    print('%-12s %-8s %s' % row)
-print('caught %d / %d' % (sum(1 for r in rows if r[1] == 'CAUGHT'), len(rows)))
-if base.rstrip('/') == '/verif/seeded' and not props:
-    import json
-    with open(os.path.join(base, 'RESULTS.md'), 'w') as f:
-        f.write('# Seeded changes and the rules that report them\n\nWritten by tools/seedrun.py: every patch is applied to a scratch copy of /repo HEAD (never to /repo) and the check of its property is run on the copy.\n\n')
-        f.write('| seed | status | rules reporting a violation | what was changed |\n|---|---|---|---|\n')
-        for rel, status, rules in rows:
-            try:
-                what = json.load(open(os.path.join(base, rel, 'meta.json')))['summary'].replace('|', '/').replace('\n', ' ')[:220]
-            except Exception:
-                what = ''
-            f.write('| %s | %s | %s | %s |\n' % (rel, status, rules, what))
-        f.write('\ncaught %d / %d\n' % (sum(1 for r in rows if r[1] == 'CAUGHT'), len(rows)))
+
+
+def table(base):
+    pds = [p for p in sorted(glob.glob(os.path.join(base, 'C*-*', 'patch.diff'))) if not props or os.path.basename(os.path.dirname(p))[:3] in props]
+    with ThreadPoolExecutor(max_workers=12) as ex:
+        return list(ex.map(one, pds))
+
+
+def summary(base, rel):
+    try:
+        return json.load(open(os.path.join(base, rel, 'meta.json')))['summary'].replace('|', '/').replace('\n', ' ')[:220]
+    except Exception:
+        return ''
+
+
+breaks = table('/verif/seeded')
+for row in breaks:
+    print('%-12s %-14s %s' % row)
+nb = sum(1 for r in breaks if r[1] == 'VIOLATION')
+print('breaks: VIOLATION %d / %d, cannot-decide %d, silent %d' % (nb, len(breaks), sum(1 for r in breaks if r[1] == 'CANNOT-DECIDE'), sum(1 for r in breaks if r[1] == 'silent')))
+refs = table('/verif/refactorings')
+for row in refs:
+    print('%-12s %-14s %s' % row)
+print('refactorings: silent %d / %d, cannot-decide %d, false VIOLATION %d' % (sum(1 for r in refs if r[1] == 'silent'), len(refs), sum(1 for r in refs if r[1] == 'CANNOT-DECIDE'), sum(1 for r in refs if r[1] == 'VIOLATION')))
+if not props:
+    with open('/verif/seeded/RESULTS.md', 'w') as f:
+        f.write('# Seeded changes and what the checks say about them\n\nWritten by tools/seedrun.py: every patch is applied to a scratch copy of /repo HEAD (never to /repo) '
+                'and the check of its property is run on the copy.\n\n## Breaks (seeded/): must be reported\n\n')
+        f.write('| seed | verdict | rules reporting a violation | what was changed |\n|---|---|---|---|\n')
+        for rel, status, rules in breaks:
+            f.write('| %s | %s | %s | %s |\n' % (rel, status, rules, summary('/verif/seeded', rel)))
+        f.write('\nVIOLATION %d / %d; CANNOT-DECIDE (exit 2, function named as restructured) %d; silent %d\n' % (
+            nb, len(breaks), sum(1 for r in breaks if r[1] == 'CANNOT-DECIDE'), sum(1 for r in breaks if r[1] == 'silent')))
+        f.write('\n## Behaviour-preserving deep refactorings (refactorings/): a VIOLATION here is a false alarm\n\n')
+        f.write('| refactoring | verdict | rules / reason | what was changed |\n|---|---|---|---|\n')
+        for rel, status, rules in refs:
+            f.write('| %s | %s | %s | %s |\n' % (rel, status, rules, summary('/verif/refactorings', rel)))
+        f.write('\nsilent %d / %d; CANNOT-DECIDE (exit 2) %d; false VIOLATION %d\n' % (
+            sum(1 for r in refs if r[1] == 'silent'), len(refs), sum(1 for r in refs if r[1] == 'CANNOT-DECIDE'), sum(1 for r in refs if r[1] == 'VIOLATION')))
